@@ -1,4 +1,5 @@
 import Datacake.Model.Cluster
+import Datacake.Model.Membership
 import Datacake.Spec.Lww
 import Driver.Actor
 /- Domain `cluster`: N-node cluster model (C01, C06, C19). -/
@@ -9,9 +10,17 @@ structure State where
   c : Cluster := {}
   known : Bool := true      -- false once the case used an operation the model cannot replay (`bulk`)
   down : List Nat := []     -- nodes that refuse connections (crashed but still selected)
+  dists : List (Nat × List Membership.Member) := []   -- live_members of the distributor of node i: (member id, node index)
 
 def kvArg (toks : List String) (key : String) : Option Nat :=
   toks.findSome? (fun t => if t.startsWith (key ++ "=") then (t.drop (key.length + 1)).toString.toNat? else none)
+
+def parseMembers (x : String) : Option (List Membership.Member) :=
+  if x == "-" then some []
+  else (x.splitOn ",").mapM (fun m =>
+    match m.splitOn "@" with
+    | [a, b] => match a.toNat?, b.toNat? with | some a, some b => some (a, b) | _, _ => none
+    | _ => none)
 
 def readStr (n : CNode) : String :=
   let rows := StoreDom.sortOn (fun r => r.1) (n.ks.store.rows.map (fun p => (p.1, p.2.1, p.2.2)))
@@ -131,6 +140,29 @@ def step (st : State) (toks : List String) : State × String :=
     match j.toNat? with
     | some j => ({ st with c := purge c j }, "ok")
     | none => (st, "bad-op")
+  | ["dist-start", i] =>
+    match i.toNat? with
+    | some i => ({ st with dists := (i, []) :: st.dists.filter (·.1 ≠ i) }, "ok")
+    | none => (st, "bad-op")
+  | ["dist-change", i, l, j] =>
+    match i.toNat?, parseMembers l, parseMembers j with
+    | some i, some l, some j =>
+      let live := ((st.dists.find? (·.1 == i)).map (·.2)).getD []
+      -- `for member in left { remove }; for member in joined { insert }`
+      let live' := Membership.applyDelta live ⟨j, l⟩
+      ({ st with dists := (i, live') :: st.dists.filter (·.1 ≠ i) }, "ok")
+    | _, _, _ => (st, "bad-op")
+  | "dist-put" :: i :: id :: d :: rest =>
+    match i.toNat?, id.toNat?, StoreDom.genData d, kvArg rest "ts" with
+    | some i, some id, some bytes, some ts =>
+      let live := ((st.dists.find? (·.1 == i)).map (·.2)).getD []
+      let targets := StoreDom.sortNat ((live.map (·.2)).eraseDups)
+      let iss : Issued := .put (id, ts, bytes)
+      let c1 := targets.foldl (fun acc t => (applyAt acc t 0 iss).1) c
+      let c1 := { c1 with ops := c1.ops ++ [(i, iss)] }
+      ({ st with c := c1 }, "recv " ++ (if targets.isEmpty then "-" else ",".intercalate (targets.map toString)))
+    | _, _, _, _ => (st, "bad-op")
+  | ["advance", _] => (st, "ok")      -- time is not part of the model: stamps come from the implementation
   | ["failnext", j] =>
     match j.toNat? with
     | some j => ({ st with c := setNode c j { getNode c j with failNext := true } }, "ok")
